@@ -432,4 +432,362 @@ Proof.
     inversion Hmk. reflexivity.
 Qed.
 
+(* ---- containers: the loops named ---- *)
+Definition cfloop : list ty -> bytes -> result (list node * bytes) :=
+  fix loop (fs : list ty) (s : bytes) : result (list node * bytes) :=
+    match fs with
+    | [] => Ok ([], s)
+    | f :: fs' => do x <- deser_impl f s (min_impl f);
+                  do r <- loop fs' (snd x);
+                  Ok (fst x :: fst r, snd r)
+    end.
+Definition cpass1 : list ty -> bytes -> N -> result (list (option node * N) * bytes * N) :=
+  fix loop (fs : list ty) (s : bytes) (fixed_size : N) : result (list (option node * N) * bytes * N) :=
+    match fs with
+    | [] => Ok ([], s, fixed_size)
+    | f :: fs' =>
+        if is_fixed_impl f then
+          do x <- deser_impl f s (min_impl f);
+          do r <- loop fs' (snd x) (fixed_size + min_impl f);
+          let '(l, s', fz) := r in Ok ((Some (fst x), 0) :: l, s', fz)
+        else
+          let '(o, s1) := decode_offset s in
+          do r <- loop fs' s1 (fixed_size + OFFSET);
+          let '(l, s', fz) := r in Ok ((None, o) :: l, s', fz)
+    end.
+Definition cpass2 (scope : N) : list ty -> list (option node * N) -> list N -> bytes -> result (list node * bytes) :=
+  fix loop (fs : list ty) (slots : list (option node * N)) (offs : list N) (s : bytes) : result (list node * bytes) :=
+    match fs, slots with
+    | f :: fs', (Some nd, _) :: slots' =>
+        do r <- loop fs' slots' offs s; Ok (nd :: fst r, snd r)
+    | f :: fs', (None, foffset) :: slots' =>
+        let offs' := tl offs in
+        let next := match offs' with o :: _ => o | [] => scope end in
+        if next <? foffset then Err EOther
+        else
+          let fsz := next - foffset in
+          if negb ((min_impl f <=? fsz) && (fsz <=? max_impl f)) then Err EOther
+          else do x <- deser_impl f s fsz;
+               do r <- loop fs' slots' offs' (snd x);
+               Ok (fst x :: fst r, snd r)
+    | _, _ => Ok ([], s)
+    end.
+Definition cont_deser (fs : list ty) (s : bytes) (scope : N) : result (node * bytes) :=
+  let t := TContainer fs in
+  let finish (nodes : list node) := fill_to_contents H nodes (contents_depth t) in
+  if is_fixed_impl t then
+    if negb (scope =? min_impl t) then Err EOther
+    else do r <- cfloop fs s; do nd <- finish (fst r); Ok (nd, snd r)
+  else
+    do p1 <- cpass1 fs s 0;
+    let '(slots, s1, fixed_size) := p1 in
+    let dyn_offsets := map snd (filter (fun x => match fst x with None => true | _ => false end) slots) in
+    match dyn_offsets with
+    | [] => do nd <- finish (map (fun x => match fst x with Some nd => nd | None => RootN zero32 end) slots);
+            Ok (nd, s1)
+    | o0 :: _ =>
+        if negb (o0 =? fixed_size) then Err EOther
+        else do r <- cpass2 scope fs slots dyn_offsets s1; do nd <- finish (fst r); Ok (nd, snd r)
+    end.
+Lemma deser_container_unfold fs s scope : deser_impl (TContainer fs) s scope = cont_deser fs s scope.
+Proof. reflexivity. Qed.
+
+Inductive F3 (P : ty -> val -> node -> Prop) : list ty -> list val -> list node -> Prop :=
+| F3_nil : F3 P [] [] []
+| F3_cons f x n fs vs ns : P f x n -> F3 P fs vs ns -> F3 P (f :: fs) (x :: vs) (n :: ns).
+
+Lemma F3_impl (P Q : ty -> val -> node -> Prop) fs vs ns :
+  (forall f x n, In f fs -> In x vs -> P f x n -> Q f x n) -> F3 P fs vs ns -> F3 Q fs vs ns.
+Proof.
+  intros HPQ HF. induction HF as [|f x n fs vs ns Hp HF IH]; constructor.
+  - apply HPQ; [now left|now left|exact Hp].
+  - apply IH. intros f' x' n' Hf Hx. apply HPQ; now right.
+Qed.
+
+Fixpoint cparts (fs : list ty) (vs : list val) : list (bool * bytes) :=
+  match fs, vs with f :: fs', x :: vs' => (is_fixed f, ser f x) :: cparts fs' vs' | _, _ => [] end.
+Lemma ser_container fs vs : ser (TContainer fs) (VCont vs) = ser_parts (cparts fs vs).
+Proof. reflexivity. Qed.
+
+Fixpoint cslots (fs : list ty) (vs : list val) (ns : list node) (off : N) : list (option node * N) :=
+  match fs, vs, ns with
+  | f :: fs', x :: vs', n :: ns' =>
+      if is_fixed f then (Some n, 0) :: cslots fs' vs' ns' off
+      else (None, off) :: cslots fs' vs' ns' (off + lenN (ser f x))
+  | _, _, _ => []
+  end.
+Fixpoint cdyn (fs : list ty) (vs : list val) (off : N) : list N :=
+  match fs, vs with
+  | f :: fs', x :: vs' => if is_fixed f then cdyn fs' vs' off else off :: cdyn fs' vs' (off + lenN (ser f x))
+  | _, _ => []
+  end.
+
+Lemma cdyn_slots fs vs ns off : F3 (fun _ _ _ => True) fs vs ns ->
+  map snd (filter (fun x : option node * N => match fst x with None => true | _ => false end) (cslots fs vs ns off)) = cdyn fs vs off.
+Proof.
+  intros HF. revert off. induction HF as [|f x n fs vs ns _ HF IH]; intros off; [reflexivity|].
+  cbn [cslots cdyn]. destruct (is_fixed f); cbn [filter fst map snd]; now rewrite IH.
+Qed.
+
+Lemma cdyn_head fs vs off :
+  (cdyn fs vs off = [] /\ sumN (map var_part_len (cparts fs vs)) = 0) \/ exists tl, cdyn fs vs off = off :: tl.
+Proof.
+  revert vs off. induction fs as [|f fs IH]; intros vs off; [left; split; reflexivity|].
+  destruct vs as [|x vs]; [left; split; reflexivity|]. cbn [cdyn cparts map].
+  destruct (is_fixed f) eqn:Ef; [|right; eauto].
+  destruct (IH vs off) as [[E1 E2]|[tl E]]; [left|right; eauto].
+  split; [exact E1|]. unfold sumN in *. cbn [fold_right]. unfold var_part_len at 1. cbn [fst]. lia.
+Qed.
+
+Lemma cdyn_bound : forall fs vs off, Forall (fun o => o <= off + sumN (map var_part_len (cparts fs vs))) (cdyn fs vs off).
+Proof.
+  induction fs as [|f fs IH]; intros vs off; [constructor|]. destruct vs as [|x vs]; [constructor|].
+  cbn [cdyn cparts map].
+  change (sumN (var_part_len (is_fixed f, ser f x) :: map var_part_len (cparts fs vs)))
+    with (var_part_len (is_fixed f, ser f x) + sumN (map var_part_len (cparts fs vs))).
+  cbn [var_part_len fst snd].
+  destruct (is_fixed f).
+  - specialize (IH vs off). eapply Forall_impl; [|exact IH]. cbn. intros; lia.
+  - constructor; [lia|]. specialize (IH vs (off + lenN (ser f x))). eapply Forall_impl; [|exact IH]. cbn. intros; lia.
+Qed.
+
+(* fixed-size container: fields back to back *)
+Lemma cfloop_ok : forall fs vs ns,
+  F3 (fun f x n => deser_ok f x n /\ lenN (ser f x) = min_impl f /\ is_fixed f = true) fs vs ns ->
+  forall off sfx, cfloop fs (fst (ser_go (cparts fs vs) off) ++ sfx) = Ok (ns, sfx).
+Proof.
+  induction 1 as [|f x n fs vs ns (Hx & Hl & Hf) HF IH]; intros off sfx; [reflexivity|].
+  cbn [cparts ser_go]. rewrite Hf. specialize (IH off sfx).
+  destruct (ser_go (cparts fs vs) off) as [fx vr]. cbn [fst] in *.
+  unfold cfloop at 1. fold cfloop. rewrite <- app_assoc, <- Hl, Hx. cbn [bind fst snd]. rewrite IH. reflexivity.
+Qed.
+
+(* first pass: fixed fields decoded in place, offsets of variable-size fields collected *)
+Lemma cpass1_ok : forall fs vs ns,
+  F3 (fun f x n => is_fixed f = true -> deser_ok f x n /\ lenN (ser f x) = min_impl f) fs vs ns ->
+  forall off fz rest, Forall (fun o => o < 2 ^ 32) (cdyn fs vs off) ->
+  cpass1 fs (fst (ser_go (cparts fs vs) off) ++ rest) fz
+  = Ok (cslots fs vs ns off, rest, fz + sumN (map fixed_part_len (cparts fs vs))).
+Proof.
+  induction 1 as [|f x n fs vs ns Hp HF IH]; intros off fz rest Hbd.
+  - cbn. rewrite N.add_0_r. reflexivity.
+  - cbn [cparts ser_go cslots cdyn map] in *.
+    change (sumN (fixed_part_len (is_fixed f, ser f x) :: map fixed_part_len (cparts fs vs)))
+      with (fixed_part_len (is_fixed f, ser f x) + sumN (map fixed_part_len (cparts fs vs))).
+    cbn [fixed_part_len fst snd].
+    unfold cpass1 at 1. fold cpass1. rewrite is_fixed_impl_eq.
+    destruct (is_fixed f) eqn:Ef.
+    + destruct (Hp eq_refl) as [Hx Hl]. specialize (IH off (fz + min_impl f) rest Hbd).
+      destruct (ser_go (cparts fs vs) off) as [fx vr]. cbn [fst] in *.
+      rewrite <- app_assoc, <- Hl at 1. rewrite Hx. cbn [bind fst snd]. rewrite IH. cbn [bind].
+      f_equal. f_equal. cbn [fixed_part_len fst snd]. lia.
+    + inversion Hbd as [|? ? Ho Hrest]; subst.
+      specialize (IH (off + lenN (ser f x)) (fz + OFFSET) rest Hrest).
+      destruct (ser_go (cparts fs vs) (off + lenN (ser f x))) as [fx vr]. cbn [fst] in *.
+      rewrite <- app_assoc. rewrite decode_offset_app by exact Ho. rewrite IH. cbn [bind].
+      f_equal. f_equal. cbn [fixed_part_len fst snd]. lia.
+Qed.
+
+(* second pass: the variable-size fields, each with the scope between consecutive offsets *)
+Lemma cpass2_ok (scope : N) : forall fs vs ns,
+  F3 (fun f x n => is_fixed f = false -> deser_ok f x n /\ min_impl f <= lenN (ser f x) <= max_impl f) fs vs ns ->
+  forall off sfx, scope = off + sumN (map var_part_len (cparts fs vs)) ->
+  cpass2 scope fs (cslots fs vs ns off) (cdyn fs vs off) (snd (ser_go (cparts fs vs) off) ++ sfx) = Ok (ns, sfx).
+Proof.
+  induction 1 as [|f x n fs vs ns Hp HF IH]; intros off sfx Hsc; [reflexivity|].
+  cbn [cparts ser_go cslots cdyn map] in *.
+  change (sumN (var_part_len (is_fixed f, ser f x) :: map var_part_len (cparts fs vs)))
+    with (var_part_len (is_fixed f, ser f x) + sumN (map var_part_len (cparts fs vs))) in Hsc.
+  destruct (is_fixed f) eqn:Ef; cbn [var_part_len fst snd] in Hsc.
+  - specialize (IH off sfx Hsc). destruct (ser_go (cparts fs vs) off) as [fx vr]. cbn [snd] in *.
+    unfold cpass2 at 1. fold (cpass2 scope). rewrite IH. reflexivity.
+  - destruct (Hp eq_refl) as [Hx Hb]. set (l := lenN (ser f x)) in *.
+    specialize (IH (off + l) sfx ltac:(lia)).
+    unfold cpass2 at 1. fold (cpass2 scope). cbn [tl].
+    assert (match cdyn fs vs (off + l) with o :: _ => o | [] => scope end = off + l) as ->.
+    { destruct (cdyn_head fs vs (off + l)) as [[E1 E2]|[tl0 E]]; rewrite ?E1, ?E; [lia|reflexivity]. }
+    assert ((off + l <? off) = false) as -> by (apply N.ltb_ge; lia).
+    replace (off + l - off) with l by lia.
+    assert ((min_impl f <=? l) && (l <=? max_impl f) = true) as -> by (apply andb_true_iff; split; apply N.leb_le; lia).
+    cbn [negb]. destruct (ser_go (cparts fs vs) (off + l)) as [fx vr]. cbn [snd] in *.
+    rewrite <- app_assoc. unfold l. rewrite Hx. cbn [bind fst snd]. fold l. rewrite IH. reflexivity.
+Qed.
+
+Lemma mk_fields : forall fs vs ns,
+  (fix go (fs : list ty) (vs : list val) : result (list node) :=
+     match fs, vs with
+     | [], [] => Ok []
+     | f :: fs', x :: vs' => do a <- mk f x; do r <- go fs' vs'; Ok (a :: r)
+     | _, _ => Err EAttr
+     end) fs vs = Ok ns ->
+  (fix go (fs : list ty) (vs : list val) : bool :=
+     match fs, vs with
+     | [], [] => true
+     | f :: fs', x :: vs' => wf f x && go fs' vs'
+     | _, _ => false
+     end) fs vs = true ->
+  forallb wf_ty fs = true ->
+  F3 (fun f x n => wf_ty f = true /\ wf f x = true /\ mk f x = Ok n) fs vs ns.
+Proof.
+  induction fs as [|f fs IH]; intros vs ns Hgo Hwf Hty; destruct vs as [|x vs]; try discriminate.
+  - inversion Hgo. constructor.
+  - destruct (mk f x) as [a|] eqn:Ea; [|discriminate]. cbn [bind] in Hgo.
+    match type of Hgo with (do r <- ?G; _) = _ => destruct G as [r|] eqn:Er; [|discriminate] end.
+    cbn [bind] in Hgo. inversion Hgo; subst ns.
+    apply andb_true_iff in Hwf as [Hx Hrest]. cbn [forallb] in Hty. apply andb_true_iff in Hty as [Htf Htys].
+    constructor; [auto|]. now apply IH.
+Qed.
+
+Lemma fields_ok : forall fs vs ns,
+  F3 (fun f x n => wf_ty f = true /\ wf f x = true /\ mk f x = Ok n) fs vs ns ->
+  Forall (fun f => forall x nx, wf_ty f = true -> wf f x = true -> lenN (ser f x) < 2 ^ 32 -> mk f x = Ok nx -> deser_ok f x nx) fs ->
+  (forall p, In p (cparts fs vs) -> lenN (snd p) < 2 ^ 32) ->
+  F3 (fun f x n => deser_ok f x n /\ min_impl f <= lenN (ser f x) <= max_impl f /\
+                   (is_fixed f = true -> lenN (ser f x) = min_impl f)) fs vs ns.
+Proof.
+  induction 1 as [|f x n fs vs ns (Htf & Hx & Hm) HF IH]; intros Hall Hb; [constructor|].
+  inversion Hall as [|? ? Hf Hfs]; subst. cbn [cparts] in Hb. constructor.
+  - split; [apply Hf; auto; apply (Hb (is_fixed f, ser f x)); now left|].
+    rewrite min_impl_eq, max_impl_eq. pose proof (ser_len_bounds f x Htf Hx). split; [lia|].
+    intros Hfx. rewrite (ser_len_fixed f x Htf Hx Hfx). destruct (fixed_min_eq_fsize f Hfx). lia.
+  - apply IH; [exact Hfs|]. intros p Hp. apply Hb. now right.
+Qed.
+
+Lemma all_fixed_no_var : forall fs vs off, forallb is_fixed fs = true -> snd (ser_go (cparts fs vs) off) = [].
+Proof.
+  induction fs as [|f fs IH]; intros vs off Hf; [reflexivity|]. destruct vs as [|x vs]; [reflexivity|].
+  cbn [forallb] in Hf. apply andb_true_iff in Hf as [Hf1 Hf2]. cbn [cparts ser_go]. rewrite Hf1.
+  specialize (IH vs off Hf2). destruct (ser_go (cparts fs vs) off). cbn [snd] in *. exact IH.
+Qed.
+
+Lemma cdyn_nonempty : forall fs vs ns off (P : ty -> val -> node -> Prop), F3 P fs vs ns -> forallb is_fixed fs = false -> cdyn fs vs off <> [].
+Proof.
+  induction 1 as [|f x n fs vs ns _ HF IH]; intros Hf; [discriminate|].
+  cbn [forallb] in Hf. cbn [cdyn]. destruct (is_fixed f); [|discriminate]. cbn [andb] in Hf. now apply IH.
+Qed.
+
+Lemma deser_container fs vs n :
+  wf_ty (TContainer fs) = true ->
+  Forall (fun f => forall x nx, wf_ty f = true -> wf f x = true -> lenN (ser f x) < 2 ^ 32 -> mk f x = Ok nx -> deser_ok f x nx) fs ->
+  wf (TContainer fs) (VCont vs) = true -> lenN (ser (TContainer fs) (VCont vs)) < 2 ^ 32 ->
+  mk (TContainer fs) (VCont vs) = Ok n -> deser_ok (TContainer fs) (VCont vs) n.
+Proof.
+  intros Hty IH Hwf Hb32 Hmk sfx. pose proof Hty as Hty0. cbn [wf_ty] in Hty. apply andb_true_iff in Hty as [Hne Htys].
+  cbn [wf] in Hwf. cbn [ModelViews.mk] in Hmk.
+  match type of Hmk with (do ns <- ?G; _) = _ => destruct G as [ns|] eqn:Hgo; [|discriminate] end. cbn [bind] in Hmk.
+  pose proof (mk_fields fs vs ns Hgo Hwf Htys) as HF0.
+  rewrite ser_container in *. set (parts := cparts fs vs) in *.
+  pose proof (ser_go_len parts (sumN (map fixed_part_len parts))) as [Hfl Hvl].
+  assert (ser_parts parts = fst (ser_go parts (sumN (map fixed_part_len parts))) ++ snd (ser_go parts (sumN (map fixed_part_len parts)))) as Esp
+    by (unfold ser_parts; destruct (ser_go parts (sumN (map fixed_part_len parts))); reflexivity).
+  assert (lenN (ser_parts parts) = sumN (map fixed_part_len parts) + sumN (map var_part_len parts)) as Elen
+    by (rewrite Esp, lenN_app, Hfl, Hvl; reflexivity).
+  pose proof (fields_ok fs vs ns HF0 IH) as HF.
+  specialize (HF ltac:(intros p Hp; pose proof (part_le_parts parts p Hp); lia)).
+  rewrite deser_container_unfold. unfold cont_deser. rewrite is_fixed_impl_eq, min_impl_eq. cbn [is_fixed].
+  destruct (forallb is_fixed fs) eqn:Efx.
+  - (* fixed-size container *)
+    assert (lenN (ser_parts parts) = min_len (TContainer fs)) as Hsc.
+    { pose proof (ser_len_fixed (TContainer fs) (VCont vs) Hty0 Hwf Efx) as E1. rewrite ser_container in E1. fold parts in E1.
+      destruct (fixed_min_eq_fsize (TContainer fs) Efx). lia. }
+    rewrite Hsc, N.eqb_refl. cbn [negb]. rewrite Esp, <- app_assoc.
+    rewrite (cfloop_ok fs vs ns).
+    2:{ eapply F3_impl; [|exact HF]. intros f x n0 Hin _ (Hx & _ & Hl). rewrite forallb_forall in Efx. specialize (Efx f Hin). auto. }
+    cbn [bind fst snd]. unfold parts. rewrite (all_fixed_no_var fs vs _ Efx). cbn [app]. rewrite Hmk. reflexivity.
+  - (* variable-size container *)
+    rewrite Elen. rewrite Esp, <- app_assoc.
+    rewrite (cpass1_ok fs vs ns).
+    2:{ eapply F3_impl; [|exact HF]. intros f x n0 _ _ (Hx & _ & Hl). auto. }
+    2:{ pose proof (cdyn_bound fs vs (sumN (map fixed_part_len parts))) as Hbd. eapply Forall_impl; [|exact Hbd]. cbn. fold parts. intros o Ho. lia. }
+    cbn [bind]. rewrite (cdyn_slots fs vs ns).
+    2:{ eapply F3_impl; [|exact HF]. auto. }
+    destruct (cdyn_head fs vs (sumN (map fixed_part_len parts))) as [[E1 _]|[tl0 E]];
+      [exfalso; revert E1; apply (cdyn_nonempty fs vs ns _ _ HF Efx)|].
+    rewrite E. rewrite N.add_0_l. fold parts. rewrite N.eqb_refl. cbn [negb]. rewrite <- E.
+    rewrite (cpass2_ok _ fs vs ns).
+    2:{ eapply F3_impl; [|exact HF]. intros f x n0 _ _ (Hx & Hb & _). auto. }
+    2:{ fold parts. reflexivity. }
+    cbn [bind fst snd]. rewrite Hmk. reflexivity.
+Qed.
+
+Lemma deser_union b os sel ov n :
+  wf_ty (TUnion b os) = true ->
+  Forall (fun f => forall x nx, wf_ty f = true -> wf f x = true -> lenN (ser f x) < 2 ^ 32 -> mk f x = Ok nx -> deser_ok f x nx) os ->
+  wf (TUnion b os) (VUnion sel ov) = true -> lenN (ser (TUnion b os) (VUnion sel ov)) < 2 ^ 32 ->
+  mk (TUnion b os) (VUnion sel ov) = Ok n -> deser_ok (TUnion b os) (VUnion sel ov) n.
+Proof.
+  intros Hty IH Hwf Hb32 Hmk sfx. cbn [wf_ty] in Hty. apply andb_true_iff in Hty as [Hty Hcount]. apply andb_true_iff in Hty as [Htys Hne].
+  apply N.leb_le in Hcount. cbn [wf] in Hwf. cbn [ModelViews.mk] in Hmk.
+  destruct (lenN os + (if b then 1 else 0) <=? N.of_nat sel) eqn:Hin; [discriminate|].
+  assert (N.of_nat sel < 256) as Hs256 by (apply N.leb_gt in Hin; destruct b; lia).
+  assert (le_val [byte_of_N (N.of_nat sel)] = N.of_nat sel) as Hsel by (apply (le_val_le_bytes 1); exact Hs256).
+  cbn [Spec.ser] in *.
+  destruct ov as [x|].
+  - apply andb_true_iff in Hwf as [Hselok Hpick].
+    assert ((b && (sel =? 0)%nat) = false) as Hbs.
+    { destruct b; [|reflexivity]. cbn [andb negb] in *. destruct sel; [discriminate|reflexivity]. }
+    rewrite Hbs in Hmk.
+    set (i := if b then pred sel else sel) in *.
+    assert (exists o, wf o x = true /\ wf_ty o = true /\
+              (forall nx, wf o x = true -> lenN (ser o x) < 2 ^ 32 -> mk o x = Ok nx -> deser_ok o x nx) /\
+              (forall (A : Type) (F : ty -> A) (dflt : A),
+                 (fix pick (os : list ty) (i : nat) : A :=
+                    match os, i with o :: _, O => F o | _ :: os', S i' => pick os' i' | [], _ => dflt end) os i = F o))
+      as (o & Hwo & Hto & Hio & Hpk).
+    { clear Hmk Hne Hcount Hselok Hin Hb32. clearbody i. revert i Hpick.
+      induction IH as [|o os Ho Hos IHos]; intros i Hpick; [destruct i; discriminate|].
+      cbn [forallb] in Htys. apply andb_true_iff in Htys as [Hto Htys].
+      destruct i as [|i].
+      - exists o. repeat split; auto.
+      - destruct (IHos Htys i Hpick) as (o' & H1 & H2 & H4 & H5). exists o'. repeat split; auto. }
+    rewrite (Hpk _ (fun o => mk o x) (Err EIndex)) in Hmk.
+    rewrite (Hpk _ (fun o => ser o x) []) in *.
+    destruct (mk o x) as [c|] eqn:Hc; [|discriminate]. cbn [bind] in Hmk. inversion Hmk; subst n. clear Hmk.
+    rewrite lenN_cons in *.
+    cbn [ModelCodec.deser_impl]. assert ((1 + lenN (ser o x) <? 1) = false) as -> by (apply N.ltb_ge; lia).
+    change (read 1 ((byte_of_N (N.of_nat sel) :: ser o x) ++ sfx)) with ([byte_of_N (N.of_nat sel)], ser o x ++ sfx).
+    cbv beta iota zeta. rewrite Hsel, Hin.
+    assert ((b && (N.of_nat sel =? 0)) = false) as ->.
+    { destruct b; [|reflexivity]. cbn [andb]. destruct sel; [cbn in Hbs; discriminate|]. apply N.eqb_neq. lia. }
+    replace (N.to_nat (if b then N.of_nat sel - 1 else N.of_nat sel)) with i by (unfold i; destruct b; lia).
+    rewrite (Hpk _ (fun o' => deser_impl o' (ser o x ++ sfx) (1 + lenN (ser o x) - 1)) (Err EIndex)).
+    replace (1 + lenN (ser o x) - 1) with (lenN (ser o x)) by lia.
+    rewrite (Hio c Hwo ltac:(lia) eq_refl sfx). reflexivity.
+  - apply andb_true_iff in Hwf as [Hb Hsel0]. apply Nat.eqb_eq in Hsel0. subst b sel.
+    cbn [andb Nat.eqb bind] in Hmk. inversion Hmk; subst n. clear Hmk.
+    cbn [N.of_nat] in *. cbn [ModelCodec.deser_impl app].
+    change (lenN [byte_of_N 0]) with 1. cbn [N.ltb N.compare Pos.compare Pos.compare_cont].
+    change (read 1 (byte_of_N 0 :: sfx)) with ([byte_of_N 0], sfx). cbv beta iota zeta.
+    rewrite Hsel, Hin. reflexivity.
+Qed.
+
+Lemma deser_uint k v n : wf_ty (TUint k) = true -> wf (TUint k) v = true -> mk (TUint k) v = Ok n -> deser_ok (TUint k) v n.
+Proof.
+  intros Hty Hwf Hmk sfx. destruct v; cbn [wf] in Hwf; try discriminate. apply N.ltb_lt in Hwf.
+  assert (lenN (ser (TUint k) (VUint n0)) = k) as -> by (cbn [Spec.ser]; rewrite le_bytes_lenN; lia).
+  rewrite (deser_uint_roundtrip H k n0 sfx Hty Hwf).
+  cbn [ModelViews.mk mk_basic] in Hmk. apply N.ltb_lt in Hwf. rewrite Hwf in Hmk. cbn [bind] in Hmk. now inversion Hmk.
+Qed.
+Lemma deser_bool v n : wf TBool v = true -> mk TBool v = Ok n -> deser_ok TBool v n.
+Proof.
+  intros Hwf Hmk sfx. destruct v; cbn [wf] in Hwf; try discriminate.
+  cbn [ModelViews.mk mk_basic bind] in Hmk. inversion Hmk; subst n. destruct b; reflexivity.
+Qed.
+Lemma deser_bytevector k bs n : wf (TByteVector k) (VBytes bs) = true -> mk (TByteVector k) (VBytes bs) = Ok n ->
+  deser_ok (TByteVector k) (VBytes bs) n.
+Proof.
+  intros Hwf Hmk sfx. cbn [wf] in Hwf. cbn [ModelViews.mk] in Hmk. rewrite Hwf in Hmk. cbn [negb] in Hmk.
+  cbn [Spec.ser ModelCodec.deser_impl]. rewrite N.eqb_sym, Hwf. cbn [negb]. apply N.eqb_eq in Hwf.
+  rewrite (read_app_n k bs sfx Hwf). rewrite Hwf, N.eqb_refl. cbn [negb]. rewrite Hmk. reflexivity.
+Qed.
+Lemma deser_bytelist l bs n : wf (TByteList l) (VBytes bs) = true -> mk (TByteList l) (VBytes bs) = Ok n ->
+  deser_ok (TByteList l) (VBytes bs) n.
+Proof.
+  intros Hwf Hmk sfx. cbn [wf] in Hwf. cbn [ModelViews.mk] in Hmk. apply N.leb_le in Hwf.
+  assert ((l <? lenN bs) = false) as Hlt by (apply N.ltb_ge; exact Hwf). rewrite Hlt in Hmk.
+  cbn [Spec.ser ModelCodec.deser_impl]. rewrite read_app, Hlt.
+  destruct (fill_to_contents H (map RootN (pack_bytes bs)) (contents_depth (TByteList l))) as [c|]; [|discriminate].
+  cbn [bind] in *. inversion Hmk. reflexivity.
+Qed.
+
 End WithHash.
